@@ -32,6 +32,7 @@ def unit(root='/repo'):
     ]
     fns = {f.name: f for f in C.layer_trait(root, external=False)}
     fns['set_opaque'].body_resub = fns['set_opaque'].body_resub + lit_subs
+    fns['create_whiteout'].splices = [('^', 'after', 'proof { assert((0o020000u32 | 0o777u32) & 0o170000u32 == 0o020000u32) by (bit_vector); }')]
     # is_opaque: the local closure `check_attr` becomes a method (R26); it captures `self` and `ctx` immutably
     fns['is_opaque'].body_hooks = [R.r26_parent_hook('check_attr', 'self.check_attr(ctx, ')]
     check_attr = Fn(LAYER, T, 'check_attr', props=['C10'], sig_subst=C.LAYER_SIG,
